@@ -22,7 +22,7 @@ func toUnits(x float64) int64 {
 		return INEXACTU
 	}
 	u := x * (1 << UnitBits)
-	if u != math.Trunc(u) || math.Abs(u) >= (1<<30) || u < 0 {
+	if u != math.Trunc(u) || math.Abs(u) >= (1<<30) {
 		return INEXACTU
 	}
 	return int64(u)
